@@ -18,34 +18,64 @@ def product(F, which):
     return A.product_for(F, cls, name)
 
 
-def cell_obligations(chk, F, which, rule, classes=None, kinds=None, prefix='cell'):
-    """one obligation per (reachable pair shape, input class): code and reference automaton agree"""
-    model, spec, P = product(F, which)
+def channels_of(allp):
+    return sorted(allp)
+
+
+def cell_obligations(chk, F, which, rule, classes=None, kinds=None, prefix='cell', tags=('behaviour',)):
+    """one obligation per (reachable pair shape, input class): the outer scanner, seen from each of the 16
+    channels, and the reference automaton agree (obligation keys are those of channel 0; the other channels
+    must reach the same shapes and are merged into them)"""
+    model, spec, P, allp = product(F, which)
     cfg = F.cfg
+    shapes0 = [A.spec_shape(P.pairs[key][1]) for key in P.order]
+    # (shape, class) -> [(channel, text)]
     bad = {}
-    for key, cname, text in P.mismatches:
-        bad.setdefault((key, cname), []).append(text)
+    rows_of = {}
+    for k in channels_of(allp):
+        Pk = allp[k]
+        shape_of = dict((key, A.spec_shape(Pk.pairs[key][1])) for key in Pk.order)
+        for mm in Pk.mismatches:
+            key, cname, text = mm[:3]
+            if (mm[3] if len(mm) > 3 else 'behaviour') not in tags:
+                continue
+            bad.setdefault((shape_of.get(key, 'init'), cname), []).append((k, text))
+        if k == 0:
+            for r in Pk.rows:
+                rows_of.setdefault((shape_of[r.pair_key], r.cname), []).append(r)
+        shapes_k = set(shape_of[key] for key in Pk.order)
+        if shapes_k != set(shapes0) and classes is None and kinds is None and not Pk.mismatches and not P.mismatches:
+            # (with mismatches the explorations stop at different places; those are reported on their own cells)
+            bad.setdefault(('init', 'init'), []).append((k, 'channel %d reaches typestates %s that channel 0 does not, channel 0 reaches %s that channel %d does not' % (
+                k, sorted(shapes_k - set(shapes0)) or '-', sorted(set(shapes0) - shapes_k) or '-', k)))
     n = 0
-    for key in P.order:
+    seen = set()
+    for idx, key in enumerate(P.order):
         cs, ss, cons, label = P.pairs[key]
-        shape = A.spec_shape(ss)
+        shape = shapes0[idx]
         for cname, kind, rng in spec.classes:
             if classes is not None and cname not in classes:
                 continue
             if kinds is not None and kind not in kinds:
                 continue
-            if kind == 'reset' and not model.sub_key('reset'):
+            if kind == 'reset' and not model.outer_key('reset'):
                 continue
-            rows = [r for r in P.rows if r.pair_key == key and r.cname == cname]
+            seen.add((shape, cname))
+            rows = rows_of.get((shape, cname), [])
             okey = '%s/%s/%s/%s/%s/%s' % (chk.pid, prefix, cfg, which, shape, cname)
-            mm = bad.get((key, cname))
+            mm = bad.get((shape, cname))
             fk = model.sub_key('poll' if kind == 'poll' else 'reset' if kind == 'reset' else 'feed')
             if mm:
-                chk.ob(okey, rule, 'refuted' if not any('unmodelled' in m or 'lost' in m for m in mm) else 'unproven',
+                chans = sorted(set(k for k, _ in mm))
+                texts = []
+                for k, t in mm:
+                    if t not in texts:
+                        texts.append(t)
+                chk.ob(okey, rule, verdict(texts),
                        subject=fn_subject(F, fk) if fk else {},
                        expected='as the reference automaton: %s' % describe_leafs(spec, ss, cname, kind),
                        found=[describe_row(F, r) for r in rows][:4],
-                       why='state %s, input %s: %s' % (A.typestate_label(F, cs), cname, '; '.join(mm)[:600]))
+                       why='channel(s) %s, state %s, input %s: %s' % (_chan_str(chans), A.typestate_label(F, cs), cname, '; '.join(texts)[:600]))
             elif not rows:
                 chk.ob(okey, rule, 'unproven', why='no outcome for this cell')
             else:
@@ -53,11 +83,43 @@ def cell_obligations(chk, F, which, rule, classes=None, kinds=None, prefix='cell
                 chk.ob(okey, rule, 'proved', subject=fn_subject(F, fk) if fk else {},
                        expected=describe_leafs(spec, ss, cname, kind), found=[describe_row(F, r) for r in rows][:3],
                        sample={'state': A.typestate_label(F, cs), 'input': cname, 'outcomes': [describe_row(F, r) for r in rows][:3]} if n % 17 == 1 else None)
-    chk.extra.setdefault('automaton', {})[which] = {'reachable_pairs': len(P.pairs), 'rows': len(P.rows),
-                                                     'interpreter_steps': P.steps, 'functions_interpreted': len(P.fns)}
-    chk.extra['states'] = chk.extra.get('states', 0) + len(P.pairs)
-    chk.extra['transitions'] = chk.extra.get('transitions', 0) + len(P.rows)
+    # mismatches that belong to no channel-0 cell (initial state, typestates only other channels reach)
+    cls_kind = dict((c, k) for c, k, _ in spec.classes)
+    for (shape, cname), mm in sorted(bad.items()):
+        if (shape, cname) in seen:
+            continue
+        if cname in cls_kind and ((classes is not None and cname not in classes) or (kinds is not None and cls_kind[cname] not in kinds)):
+            continue
+        chans = sorted(set(k for k, _ in mm))
+        texts = []
+        for k, t in mm:
+            if t not in texts:
+                texts.append(t)
+        okey = '%s/%s/%s/%s/%s/%s' % (chk.pid, prefix, cfg, which, shape, cname)
+        chk.ob(okey, rule, verdict(texts),
+               subject=fn_subject(F, model.sub_key('feed')) if model.sub_key('feed') else {},
+               expected='as the reference automaton', found='',
+               why='channel(s) %s: %s' % (_chan_str(chans), '; '.join(texts)[:600]))
+    tot_pairs = sum(len(p.pairs) for p in allp.values())
+    tot_rows = sum(len(p.rows) for p in allp.values())
+    chk.extra.setdefault('automaton', {})[which] = {'channels': len(allp), 'reachable_pairs_per_channel': len(P.pairs), 'rows_per_channel': len(P.rows),
+                                                     'reachable_pairs': tot_pairs, 'rows': tot_rows,
+                                                     'interpreter_steps': sum(p.steps for p in allp.values()),
+                                                     'functions_interpreted': len(set().union(*[p.fns for p in allp.values()]))}
+    chk.extra['states'] = chk.extra.get('states', 0) + tot_pairs
+    chk.extra['transitions'] = chk.extra.get('transitions', 0) + tot_rows
+    chk.floor('channels_%s_%s' % (which, cfg), 16, len(allp))
     return model, spec, P
+
+
+def verdict(texts):
+    """refuted unless every reason is one of the 'could not decide' kinds"""
+    soft = lambda m: 'unproven:' in m or 'unmodelled' in m or 'lost' in m or 'could not be interpreted' in m
+    return 'unproven' if all(soft(m) for m in texts) else 'refuted'
+
+
+def _chan_str(chans):
+    return 'all' if len(chans) == 16 else ','.join(str(c) for c in chans)
 
 
 def describe_row(F, r):
@@ -84,5 +146,5 @@ def describe_leafs(spec, ss, cname, kind):
 
 def reachable_invariants(chk, F, which, rule):
     """facts about every reachable code typestate that other properties rely on"""
-    model, spec, P = product(F, which)
+    model, spec, P, allp = product(F, which)
     return P
